@@ -29,8 +29,30 @@ QLIM_PROFILE = netgen.profile(dcline=False, oos=0.03, open_prob=0.15, second_sla
                                          "asymmetric_load": 0, "asymmetric_sgen": 0})
 
 
+# networks that take the "single slack" fast result path: one ext_grid, no gens/xwards/dclines, no line charging,
+# shunts and wards purely resistive (or none)
+SINGLE_SLACK_PROFILE = netgen.profile(dcline=False, oos=0.03, open_prob=0.15, second_slack=False, slack_gen=False, noslack_island=False,
+                                      zip=False, resistive_shunts=True, trafo3w=False,
+                                      bus_kinds={"load": 6, "sgen": 3, "gen": 0, "storage": 1, "shunt": 2, "ward": 2, "xward": 0,
+                                                 "motor": 1, "asymmetric_load": 0, "asymmetric_sgen": 0})
+
+
 @st.composite
 def _case(draw, tier):
+    if draw(st.integers(0, 7)) == 0:
+        recipe = draw(netgen.grid(SINGLE_SLACK_PROFILE))
+        for e in recipe["el"]:
+            if e["t"] == "line":
+                e["c_nf_per_km"] = 0.0
+                e.pop("g_us_per_km", None)
+            if e["t"] == "trafo":
+                e["i0_percent"], e["pfe_kw"] = 0.0, 0.0
+            if e["t"] == "impedance":
+                for k in ("gf_pu", "bf_pu", "gt_pu", "bt_pu"):
+                    e.pop(k, None)
+        return {"recipe": recipe, "opt": {"mode": "ac", "voltage_depend_loads": False, "trafo_model": draw(st.sampled_from(["t", "pi"])),
+                                          "calculate_voltage_angles": draw(st.booleans()), "numba": True, "enforce_q_lims": False,
+                                          "lightsim2grid": draw(st.sampled_from([False, "auto"]))}}
     qlim = draw(st.integers(0, 4)) == 0
     if qlim:
         # many generators with narrow reactive limits: limits that become binding one after the other
@@ -168,6 +190,8 @@ def check(case):
     if vm.isna().any():
         res.label("unsupplied-bus")
     res.label("levels:%d" % net.bus.vn_kv.nunique())
+    if len(net.gen) == 0 and len(net.ext_grid) == 1 and not len(net.xward) and not len(net.dcline):
+        res.label("single-slack-no-gen")
     if opt.get("enforce_q_lims") and len(net.gen) >= 2:
         res.label("enforce_q_lims+>=2gens")
     return res
